@@ -2,7 +2,12 @@
 (* PSBT review summary for a multisig wallet (C11).  A wallet is N cosigners with quorum M.    *)
 (* Keys are abstract: <<c, tag>> is cosigner c's key at the path the PSBT states ("chg") or at   *)
 (* another path ("alt"); <<0, "atk">> is a key the wallet cannot spend.  A script is            *)
-(* [m, keys]; committing to a script by hash is modelled by carrying the script itself.          *)
+(* [m, keys, shape]: shape "plain" is exactly OP_m <keys> OP_n OP_CHECKMULTISIG; "backdoor" is a   *)
+(* script that begins with OP_m and ends with <keys> OP_n OP_CHECKMULTISIG but says something     *)
+(* else in between (e.g. OP_m OP_DROP <atk> OP_CHECKSIGVERIFY OP_0 OP_0 <keys> OP_n               *)
+(* OP_CHECKMULTISIG, which one foreign key spends); "nslot" keeps OP_m and the keys but carries    *)
+(* another number in the OP_n position.  Committing to a script by hash is modelled by carrying    *)
+(* the script itself.                                                                             *)
 (* An output record carries what a PSBT output carries: the scriptPubKey commitment, the         *)
 (* attached redeem / witness script and the BIP32 derivation records (key, claimed cosigner,     *)
 (* claimed path tag).                                                                             *)
@@ -14,24 +19,26 @@
 EXTENDS Naturals, FiniteSets, Sequences, TLC
 CONSTANTS N, M, Kind,              \* Kind: "p2sh" or "p2wsh"
           CheckRedeemHash,         \* PSBTOut.validate ties a bare redeem script to the scriptPubKey
+          CheckTemplate,           \* get_quorum accepts nothing but the plain multisig template (FALSE: the unrepaired code, which reads m
+                                   \* from the first op code and n from the op code before OP_CHECKMULTISIG [P2WSH] or from the command count [P2SH])
           CheckDistinctCosigners   \* "all": change detection requires one key per declared cosigner; "quorum": only >= M distinct
                                    \* cosigners (a plausible weakening, must be refuted); "none": the unrepaired code
 Cos == 1..N
-NoScript == [m |-> 0, keys |-> {}]
+NoScript == [m |-> 0, keys |-> {}, shape |-> "plain"]
 HonestKeys == {<<c, "chg">> : c \in Cos}
-HonestScript == [m |-> M, keys |-> HonestKeys]
+HonestScript == [m |-> M, keys |-> HonestKeys, shape |-> "plain"]
 Derives(np) == np.key = <<np.xfp, np.path>>            \* the key really is the claimed cosigner's key at the claimed path
 HonestNamed == {[key |-> <<c, "chg">>, xfp |-> c, path |-> "chg"] : c \in Cos}
 HonestChange == [amount |-> 3, spk |-> HonestScript, attached |-> HonestScript, named |-> HonestNamed]
-Spend == [amount |-> 5, spk |-> [m |-> 1, keys |-> {<<0, "atk">>}], attached |-> NoScript, named |-> {}]
+Spend == [amount |-> 5, spk |-> [m |-> 1, keys |-> {<<0, "atk">>}, shape |-> "plain"], attached |-> NoScript, named |-> {}]
 VARIABLES outs, tampers, inputsOK
 vars == <<outs, tampers, inputsOK>>
 Init == outs = <<Spend, HonestChange>> /\ tampers = 0 /\ inputsOK = TRUE
 
-AtkScript == [m |-> M, keys |-> {<<0, "atk">>} \cup {<<c, "chg">> : c \in 2..N}]
-OneCosScript == [m |-> M, keys |-> {<<1, "chg">>, <<1, "alt">>} \cup (IF N > 2 THEN {<<1, "alt2">>} ELSE {})]
+AtkScript == [m |-> M, keys |-> {<<0, "atk">>} \cup {<<c, "chg">> : c \in 2..N}, shape |-> "plain"]
+OneCosScript == [m |-> M, keys |-> {<<1, "chg">>, <<1, "alt">>} \cup (IF N > 2 THEN {<<1, "alt2">>} ELSE {}), shape |-> "plain"]
 OneCosNamed == {[key |-> k, xfp |-> 1, path |-> k[2]] : k \in OneCosScript.keys}
-TwoFromOneScript == [m |-> M, keys |-> {<<1, "chg">>, <<1, "alt">>} \cup {<<c, "chg">> : c \in 2..(N - 1)}]     \* cosigner 1 twice, cosigner N not at all
+TwoFromOneScript == [m |-> M, keys |-> {<<1, "chg">>, <<1, "alt">>} \cup {<<c, "chg">> : c \in 2..(N - 1)}, shape |-> "plain"]     \* cosigner 1 twice, cosigner N not at all
 TwoFromOneNamed == {[key |-> k, xfp |-> k[1], path |-> k[2]] : k \in TwoFromOneScript.keys}
 Set(k, o) == outs' = [outs EXCEPT ![k] = o] /\ tampers' = tampers + 1 /\ UNCHANGED inputsOK
 \* the catalogue (applied to output 2, the change output, unless stated)
@@ -44,10 +51,13 @@ TwoFromOne == N > 2 /\ Set(2, [outs[2] EXCEPT !.attached = TwoFromOneScript, !.s
 WrongPath == Set(2, [outs[2] EXCEPT !.named = (HonestNamed \ {[key |-> <<1, "chg">>, xfp |-> 1, path |-> "chg"]}) \cup {[key |-> <<1, "chg">>, xfp |-> 1, path |-> "alt"]}])
 ForeignXfp == Set(2, [outs[2] EXCEPT !.named = (HonestNamed \ {[key |-> <<1, "chg">>, xfp |-> 1, path |-> "chg"]}) \cup {[key |-> <<1, "chg">>, xfp |-> 0, path |-> "chg"]}])
 ChangeQuorum == M > 1 /\ Set(2, [outs[2] EXCEPT !.attached = [HonestScript EXCEPT !.m = M - 1], !.spk = [HonestScript EXCEPT !.m = M - 1]])
+\* the wallet's own change keys, honest derivations, the scriptPubKey commits to the attached script - but the script is not the template
+BackdoorScript == Set(2, [outs[2] EXCEPT !.attached = [HonestScript EXCEPT !.shape = "backdoor"], !.spk = [HonestScript EXCEPT !.shape = "backdoor"]])
+NSlotScript == Set(2, [outs[2] EXCEPT !.attached = [HonestScript EXCEPT !.shape = "nslot"], !.spk = [HonestScript EXCEPT !.shape = "nslot"]])
 SecondChange == outs' = Append(outs, HonestChange) /\ tampers' = tampers + 1 /\ UNCHANGED inputsOK
 MarkSpendAsChange == Set(1, [outs[1] EXCEPT !.attached = HonestScript, !.named = HonestNamed])            \* spend output dressed up with change metadata
 TamperInput == inputsOK' = FALSE /\ tampers' = tampers + 1 /\ UNCHANGED outs                            \* UTXO / script / derivation of an input no longer matches
-Next == tampers < 2 /\ (SwapSpk \/ ForeignScript \/ ForeignScriptNamed \/ OneCosigner \/ TwoFromOne \/ WrongPath \/ ForeignXfp \/ ChangeQuorum \/ SecondChange \/ MarkSpendAsChange \/ TamperInput)
+Next == tampers < 2 /\ (SwapSpk \/ ForeignScript \/ ForeignScriptNamed \/ OneCosigner \/ TwoFromOne \/ WrongPath \/ ForeignXfp \/ ChangeQuorum \/ BackdoorScript \/ NSlotScript \/ SecondChange \/ MarkSpendAsChange \/ TamperInput)
 Spec == Init /\ [][Next]_vars
 
 \* ---- PSBTOut.validate + change detection, as the code proceeds -----------------------------------
@@ -58,6 +68,10 @@ OutcomeOut(o) ==        \* "spend" / "change" / "reject"
   IF ~ValidateOut(o) THEN "reject"
   ELSE IF o.named = {} THEN "spend"
   ELSE IF o.attached = NoScript THEN "reject"
+  ELSE IF CheckTemplate /\ o.attached.shape # "plain" THEN "reject"
+  \* the unrepaired get_quorum: P2WSH reads n from the op code before OP_CHECKMULTISIG (the "nslot" script shows another number
+  \* there, the "backdoor" script the right one); P2SH counts the commands (the backdoor has more of them, "nslot" the same)
+  ELSE IF ~CheckTemplate /\ o.attached.shape = (IF Kind = "p2wsh" THEN "nslot" ELSE "backdoor") THEN "reject"
   ELSE IF o.attached.m # M \/ Cardinality(o.attached.keys) # N \/ Cardinality(o.named) # N THEN "reject"
   ELSE IF \E np \in o.named : np.xfp \notin Cos \/ ~Derives(np) THEN "reject"
   ELSE IF CheckDistinctCosigners = "all" /\ Cardinality({np.xfp : np \in o.named}) # N THEN "reject"
@@ -67,7 +81,7 @@ Describe == IF ~inputsOK \/ \E k \in 1..Len(outs) : OutcomeOut(outs[k]) = "rejec
             ELSE IF Cardinality({k \in 1..Len(outs) : OutcomeOut(outs[k]) = "change"}) > 1 THEN "reject"
             ELSE "summary"
 \* ---- the property -----------------------------------------------------------------------------------
-RealChange(o) == /\ o.spk.m = M /\ Cardinality(o.spk.keys) = N
+RealChange(o) == /\ o.spk.shape = "plain" /\ o.spk.m = M /\ Cardinality(o.spk.keys) = N
                  /\ \A c \in Cos : Cardinality({k \in o.spk.keys : k[1] = c}) = 1
                  /\ \A np \in o.named : Derives(np) /\ np.key \in o.spk.keys
 ChangeIsReal == Describe = "summary" => \A k \in 1..Len(outs) : OutcomeOut(outs[k]) = "change" => RealChange(outs[k])
